@@ -5,9 +5,10 @@ from .. import oracle as o
 ID = 'C11'
 RULE = ('one record per (type, version, t, m, p, T, pwd, salt, key, aad, entry point): tag must equal the RFC 9106 transcription; t 1..4, p 1..5, '
         'm from 8p to 256 (quick) / a few thousand (thorough) including m not divisible by 4p and segment lengths > 128, tag lengths 4..300 crossing '
-        '64 and multiples of 32, empty and long inputs; directed parameter sets of Argon2i/id whose (parameter-only) pseudo-random J1 values fall within 2^16 of 0 or 2^32;  both argon2_at and argon2::<T>; distinct = (type, version, t, m, p, T, api)')
+        '64 and multiples of 32, empty and long inputs; directed parameter sets of Argon2i/id whose (parameter-only) pseudo-random J1 values fall within 2^16 of 0 or 2^32;  both argon2_at and argon2::<T>; Params values built by setter histories (any order, repeated setters, the same Params used for two derivations); distinct = (type, version, t, m, p, T, api)')
 ASSUMPTIONS = ['pure-Python RFC 9106 model pinned by the RFC section 5 vectors; BLAKE2b from hashlib']
-FLOORS = {'evaluations': 250, 'distinct': 200, 'coverage': {'extreme-j1-low': 2, 'm%4p!=0:indep': 15, 'T>64:T%32==0': 10, 'version:0x10:t>1': 10, 'lanes>1': 40}}
+FLOORS = {'evaluations': 250, 'distinct': 200, 'coverage': {'extreme-j1-low': 2, 'm%4p!=0:indep': 15, 'T>64:T%32==0': 10, 'version:0x10:t>1': 10, 'lanes>1': 40, 'builder:repeated-setter': 5, 'builder:p-after-m': 5, 'segment>128:i': 1, 'segment>128:id': 1}}
+THOROUGH_ROUNDS = 8   # thorough tier: generator passes with derived seeds (runner.gen_rounds)
 ARR_T = [4, 5, 16, 31, 32, 33, 63, 64, 65, 95, 96, 97, 128, 160, 300]
 TYPES = {'d': 0, 'i': 1, 'id': 2}
 
@@ -89,12 +90,60 @@ def gen(tier, seed):
         yield case(rng, 'id', 0x13, 1, 4096, 1, 64, 'at')
         yield case(rng, 'i', 0x13, 2, 2100, 4, 33, 'at')
     else:
-        for ty in ('i', 'id'):
-            yield case(rng, ty, 0x13, 1, 530, 1, 32, 'at')
+        # segment length > 128 (address-block refresh of the data-independent variants): m >= 516 p
+        for ty in ('i', 'id', 'd'):
+            for ver, m, p in ((0x13, 516 + rng.rng(0, 40), 1), (0x10, 520 + rng.rng(0, 100), 1), (0x13, 1040 + rng.rng(0, 30), 2)):
+                yield case(rng, ty, ver, 2 if m < 600 else 1, m, p, 32, 'at')
+    # Params built by setter histories: setters in any order, some called several times; every intermediate state stays inside
+    # the documented domain (m >= 8 p), so the final values alone determine the function
+    for _ in range(160 if thorough else 40):
+        m, p_, t, v = 32, 1, 1, 0x13
+        seq = []
+        for _ in range(rng.rng(2, 7)):
+            k = rng.choice(['p', 'p', 'm', 'm', 't', 'v'])
+            if k == 'p':
+                np_ = rng.rng(1, 5)
+                if m < 8 * np_:
+                    continue
+                p_ = np_; seq.append('p=%d' % p_)
+            elif k == 'm':
+                m = rng.choice([8 * p_, 8 * p_ + rng.rng(1, 9), rng.rng(8 * p_, 8 * p_ + 60), 4 * p_ * rng.rng(2, 12) + rng.rng(1, 4 * p_ - 1) if p_ > 1 else rng.rng(8, 90)])
+                seq.append('m=%d' % m)
+            elif k == 't':
+                t = rng.rng(1, 3); seq.append('t=%d' % t)
+            else:
+                v = rng.choice([0x10, 0x13]); seq.append('v=0x%x' % v)
+        if not seq:
+            continue
+        T = rng.choice([4, 16, 32, 33, 64, 65, 96, 128])
+        yield 'argon2b %s %d %s %s %s %s %s %s' % (rng.choice(list(TYPES)), T, rng.data(rng.choice([0, 8, 32])), rng.data(rng.choice([8, 16])), rng.data(rng.choice([0, 8])), rng.data(rng.choice([0, 12])),
+                                                    rng.choice(['at', 'arr']), ' '.join(seq))
+
+
+def final_params(setters):
+    m, p, t, v = 32, 1, 1, 0x13        # documented defaults of Params::argon2{d,i,id}()
+    for s in setters:
+        k, val = s[:1], int(s[2:], 0)
+        if k == 'p':
+            p = val
+        elif k == 'm':
+            m = val
+        elif k == 't':
+            t = val
+        else:
+            v = val
+        assert m >= 8 * p, 'generator left the documented domain'
+    return m, p, t, v
 
 
 def check(line, toks):
     f = line.split(' #')[0].split()
+    if f[0] == 'argon2b':
+        m, p, t, v = final_params(f[8:])
+        exp = o.argon2(TYPES[f[1]], v, t, m, p, int(f[2]), expand(f[3]), expand(f[4]), expand(f[5]), expand(f[6])).hex()
+        if toks != [exp, exp]:
+            return [('C11:argon2%s:builder-history-tag-mismatch' % f[1], 'setters %s (final v=%x t=%d m=%d p=%d) T=%s api=%s expected %s.. got %s' % (' '.join(f[8:]), v, t, m, p, f[2], f[7], exp[:32], ' '.join(x[:32] for x in toks)))]
+        return []
     ty, ver, t, m, p, T = f[1], int(f[2], 16), int(f[3]), int(f[4]), int(f[5]), int(f[6])
     exp = o.argon2(TYPES[ty], ver, t, m, p, T, expand(f[7]), expand(f[8]), expand(f[9]), expand(f[10])).hex()
     if toks != [exp]:
@@ -104,6 +153,8 @@ def check(line, toks):
 
 def classify(line):
     f = line.split(' #')[0].split()
+    if f[0] == 'argon2b':
+        return ('builder', f[1], f[2], f[7]) + tuple(f[8:])
     return tuple(f[1:7]) + (f[11],)
 
 
@@ -112,6 +163,10 @@ def coverage(line, toks):
     f = body.split()
     if ann:
         return [ann]
+    if f[0] == 'argon2b':
+        ks = [x[0] for x in f[8:]]
+        return ['builder-history', 'builder:repeated-setter' if len(set(ks)) < len(ks) else 'builder:each-setter-once',
+                'builder:p-after-m' if 'm' in ks and 'p' in ks[ks.index('m'):] else 'builder:other-order']
     ty, ver, t, m, p, T = f[1], int(f[2], 16), int(f[3]), int(f[4]), int(f[5]), int(f[6])
     out = ['type:%s' % ty, 'version:0x%x' % ver, 'api:%s' % f[11]]
     if m % (4 * p):
@@ -133,6 +188,8 @@ def san_subset(lines):
     out = []
     for l in lines:
         f = l.split()
+        if f[0] == 'argon2b':
+            continue
         if int(f[4]) <= 24 and int(f[3]) <= 2:
             out.append(l)
     return out[:40]
